@@ -5,6 +5,8 @@
    function passes through unchanged). *)
 From Coq Require Import ZArith QArith List Bool.
 From PV Require Import Lib.Py Model.Text Proofs.C20.
+From PV Require Import Model.TextFormat Proofs.Radix.
+From PV Require Import Proofs.C20TextSpec Proofs.C20TextConv Proofs.C20Text Proofs.C20TextTop.
 Import ListNotations.
 Open Scope Z_scope.
 
@@ -175,3 +177,97 @@ Theorem C20_lower_ascii : forall s, not_code s -> non_ascii s = false ->
   X_lower [VStr s] = Ok (VStr (map ascii_lower s)).
 Proof. exact lower_ascii_total. Qed.
 Print Assumptions C20_lower_ascii.
+
+(* ------------------------------------------------------------------ TEXT
+   TEXT(x, f) for EVERY rational x and EVERY format of the grammar
+       f ::= int [ '.' frac ] '%'*      int over 0 # ,   frac over 0 #
+   (Proofs/C20TextSpec.v: [tfmt], [fmt_ok], [fmt_string]; decidable membership
+   [parse_fmt]; excluded: literals, a ',' not directly after a placeholder, a
+   second '.', a '%' before the end, sections, '?', dates).
+   [text_spec rnd x F] is the declarative rendering (sign, zero padding, digits
+   of the integer part, grouping in threes, '.', fraction digits without the
+   optional trailing zeros, '%' signs) of rnd(|x| * 100^(#%) * 10^(#frac)). *)
+
+(* what the implementation computes, ties included: round-half-even *)
+Theorem C20_text_halfeven : forall x F, fmt_ok F = true ->
+  text_fmt x (fmt_string F) = Ok (text_spec half_even x F)
+  /\ X_text [VFloat x; VStr (fmt_string F)] = Ok (VStr (text_spec half_even x F))
+  /\ (forall z, x = inject_Z z ->
+        X_text [VInt z; VStr (fmt_string F)] = Ok (VStr (text_spec half_even x F))).
+Proof. exact text_halfeven_all. Qed.
+Print Assumptions C20_text_halfeven.
+
+(* the clause of the property (half away from zero), wherever x is not a
+   rounding tie at the requested digits *)
+Theorem C20_text_nontie : forall x F, fmt_ok F = true -> ~ is_tie (text_arg x F) ->
+  text_fmt x (fmt_string F) = Ok (text_spec half_away x F)
+  /\ X_text [VFloat x; VStr (fmt_string F)] = Ok (VStr (text_spec half_away x F))
+  /\ (forall z, x = inject_Z z ->
+        X_text [VInt z; VStr (fmt_string F)] = Ok (VStr (text_spec half_away x F))).
+Proof. exact text_nontie_all. Qed.
+Print Assumptions C20_text_nontie.
+
+(* integers are never ties: the clause holds for every integer *)
+Theorem C20_text_integer : forall z F, fmt_ok F = true ->
+  X_text [VInt z; VStr (fmt_string F)] = Ok (VStr (text_spec half_away (inject_Z z) F)).
+Proof. exact text_integer_all. Qed.
+Print Assumptions C20_text_integer.
+
+(* the same two statements for a text recognised by the decidable grammar test *)
+Theorem C20_text_parsed : forall x s F, parse_fmt s = Some F ->
+  s = fmt_string F /\ fmt_ok F = true
+  /\ text_fmt x s = Ok (text_spec half_even x F)
+  /\ (~ is_tie (text_arg x F) -> text_fmt x s = Ok (text_spec half_away x F)).
+Proof. exact text_parsed_all. Qed.
+Print Assumptions C20_text_parsed.
+
+(* the two modes: equal off the ties; on a tie half-away goes up and half-even
+   goes to the even neighbour (so they differ exactly on ties with an even floor:
+   the known finding C20-text-half-even, Refuted/C20_text_rounding.v) *)
+Theorem C20_text_modes : forall q, (0 <= q)%Q ->
+  half_away q = Qround.Qfloor (q + (1 # 2))
+  /\ (~ is_tie q -> half_even q = half_away q)
+  /\ (is_tie q -> half_away q = Qround.Qfloor q + 1
+                  /\ half_even q = if Z.even (Qround.Qfloor q) then Qround.Qfloor q
+                                   else Qround.Qfloor q + 1).
+Proof. exact text_modes_all. Qed.
+Print Assumptions C20_text_modes.
+
+(* digit level: str_of_Z is the base-ten numeral without a leading zero; the
+   d-digit fraction; the dropped zeros; grouping = a ',' before every third
+   digit from the right *)
+Theorem C20_text_digits : forall n, 0 <= n ->
+  horner 10 0 (str_of_Z n) = n /\ Forall digitc (str_of_Z n)
+  /\ (0 < n -> exists c s, str_of_Z n = c :: s /\ c <> 48).
+Proof. exact text_digits_all. Qed.
+Print Assumptions C20_text_digits.
+
+Theorem C20_text_fraction : forall d r, 0 <= r < 10 ^ Z.of_nat d ->
+  length (zpad d (str_of_Z r)) = Nat.max d 1
+  /\ horner 10 0 (zpad d (str_of_Z r)) = r
+  /\ Forall digitc (zpad d (str_of_Z r))
+  /\ exists j, zpad d (str_of_Z r) = fdigits d r ++ repeat 48 j /\ last (fdigits d r) 0 <> 48.
+Proof. exact text_fraction_all. Qed.
+Print Assumptions C20_text_fraction.
+
+Theorem C20_text_grouping : forall s,
+  ((length s <= 3)%nat -> group3 s = s)
+  /\ (forall a b c, s <> [] -> group3 (s ++ [a; b; c]) = group3 s ++ [44; a; b; c])
+  /\ filter (fun c => negb (c =? 44)) (group3 s) = filter (fun c => negb (c =? 44)) s.
+Proof. exact text_grouping_all. Qed.
+Print Assumptions C20_text_grouping.
+
+(* parse_fmt decides membership in the grammar *)
+Theorem C20_text_grammar_decidable : forall s F,
+  parse_fmt s = Some F <-> (fmt_ok F = true /\ s = fmt_string F).
+Proof. exact text_grammar_decidable_all. Qed.
+Print Assumptions C20_text_grammar_decidable.
+
+(* the usual reading of the placeholders: for an integer part of a '#' then b '0'
+   the digits (L of them) are padded with zeros to b places, for a fraction part of
+   a '0' then b '#' the digits (L left after dropping zeros) are filled up to a places *)
+Theorem C20_text_padding : forall a b L : nat,
+  zeros_of (firstn (a + b - L) (repeat 35 a ++ repeat 48 b)) = repeat 48 (b - L)
+  /\ zeros_of (skipn L (repeat 48 a ++ repeat 35 b)) = repeat 48 (a - L).
+Proof. exact text_padding_all. Qed.
+Print Assumptions C20_text_padding.
